@@ -3,7 +3,10 @@ import os, re
 from .. import core, fetch, server, httpstrict
 from ..gen import tree as treegen
 
-CLIMB = ["..", "..", "..", "%2e%2e", "%2E%2E", ".%2e", "%2e.", "..%2f", "%2e%2e%2f", "..\\", "%5c..", "....", "....//", ".", "", "%2e", "..%00", "..;", "..%20", " ..", "..."]
+CLIMB = ["..", "..", "..", "%2e%2e", "%2E%2E", ".%2e", "%2e.", "..%2f", "..%2F", "%2e%2e%2f", "%2E%2E%2F", "..\\", "%5c..", "%5C..", "..%5c", "..%5C", "....", "....//", ".", "", "%2e", "..%00", "..;", "..%20", " ..", "...",
+         "..%252f", "..%c0%af", "..%2F..%2F", "..%2f..%2f", "%2F..", "%2f.."]
+# encoded separators glued to the following name: one literal segment that becomes '../name' if anything decodes it
+GLUE = ["..%2F", "..%2f", "..%5C", "..%5c", "%2E%2E%2F", "%2e%2e%2f", "..%2F..%2F", "..%2f..%2f", "..%252F", ".%2E%2F", "..%2F.%2F"]
 
 
 def climbs(target):
@@ -31,6 +34,8 @@ def features(target):
         f.add("encoded-dot")
     if "%2f" in p.lower() or "%5c" in p.lower():
         f.add("encoded-slash")
+    if "%2F" in p or "%5C" in p or "%2E" in p:
+        f.add("upper-case-escape")
     if "\\" in p:
         f.add("backslash")
     if "//" in p:
@@ -70,6 +75,12 @@ def gen_targets(t, rng, n):
             depth = d.count("/")
             for extra in (0, 1, 2, 3):
                 out.append(d + "/" + "../" * (depth + extra) + name)
+        for g in GLUE:
+            out.append("/" + g + name)
+            out.append("/" + g + g + name)
+            for d in dirs[:2]:
+                out.append(d + "/" + g * (d.count("/") + 1) + name)
+                out.append(d + "/" + g * (d.count("/") + 2) + name)
         for ld in linkdirs[:2]:
             for extra in (1, 2, 3, 4):
                 out.append(ld + "/" + "../" * extra + name)
